@@ -38,49 +38,77 @@ type frag struct {
 func v(label, y string) frag { return frag{label, true, y} }
 func x(label, y string) frag { return frag{label, false, y} }
 
+// Dimensions are finer than YAML sections: every group of constraints that one validator
+// function checks with early returns is split so that a valid part can stand next to an
+// invalid part of the same section (e.g. valid active checks + invalid passive checks).
+// A file is composed by deep-merging the chosen fragments.
 var c18Sections = []struct {
 	name  string
 	frags []frag
 }{
-	{"server", []frag{
-		v("port-8080", "server:\n  port: 8080\n"),
-		v("port-65535+timeouts", "server:\n  port: 65535\n  timeouts:\n    read: 15\n    write: 15\n    idle: 60\n    handler: 30\n    shutdown: 30\n    backend_dial: 10\n    backend_read: 30\n    backend_idle: 90\n"),
-		x("port-0", "server:\n  port: 0\n"),
-		x("port-70000", "server:\n  port: 70000\n"),
-		x("negative-read-timeout", "server:\n  port: 8080\n  timeouts:\n    read: -1\n"),
-		x("negative-backend-dial", "server:\n  port: 8080\n  timeouts:\n    backend_dial: -5\n"),
-		x("tls-without-cert", "server:\n  port: 8443\n  tls:\n    enabled: true\n"),
-		v("tls-disabled-with-paths", "server:\n  port: 8080\n  tls:\n    enabled: false\n    certFile: \"certs/cert.pem\"\n    keyFile: \"certs/key.pem\"\n"),
+	{"server.port", []frag{
+		v("8080", "server:\n  port: 8080\n"),
+		v("65535", "server:\n  port: 65535\n"),
+		x("0", "server:\n  port: 0\n"),
+		x("70000", "server:\n  port: 70000\n"),
+		x("negative", "server:\n  port: -1\n"),
+	}},
+	{"server.timeouts", []frag{
+		v("omitted", ""),
+		v("documented", "server:\n  timeouts:\n    read: 15\n    write: 15\n    idle: 60\n    handler: 30\n    shutdown: 30\n    backend_dial: 10\n    backend_read: 30\n    backend_idle: 90\n"),
+		x("negative-read", "server:\n  timeouts:\n    read: -1\n"),
+		x("negative-backend-dial", "server:\n  timeouts:\n    write: 5\n    backend_dial: -5\n"),
+		x("negative-shutdown", "server:\n  timeouts:\n    shutdown: -2\n"),
+		x("negative-backend-idle", "server:\n  timeouts:\n    read: 15\n    backend_idle: -1\n"),
+	}},
+	{"server.tls", []frag{
+		v("omitted", ""),
+		v("disabled-with-paths", "server:\n  tls:\n    enabled: false\n    certFile: \"certs/cert.pem\"\n    keyFile: \"certs/key.pem\"\n"),
+		x("enabled-without-cert", "server:\n  tls:\n    enabled: true\n    keyFile: k.pem\n"),
+		x("enabled-without-key", "server:\n  tls:\n    enabled: true\n    certFile: c.pem\n"),
 	}},
 	{"backends", []frag{
 		v("three-weighted", "backends:\n  - name: \"server1\"\n    address: \"http://localhost:8081\"\n    weight: 5\n  - name: \"server2\"\n    address: \"http://localhost:8082\"\n    weight: 2\n"),
 		v("no-weight", "backends:\n  - name: a\n    address: http://127.0.0.1:9\n"),
 		x("none", "backends: []\n"),
-		x("missing-name", "backends:\n  - address: http://127.0.0.1:9\n"),
+		x("missing-name", "backends:\n  - name: ok\n    address: http://127.0.0.1:9\n  - address: http://127.0.0.1:9\n"),
 		x("missing-address", "backends:\n  - name: a\n"),
-		x("negative-weight", "backends:\n  - name: a\n    address: http://127.0.0.1:9\n    weight: -1\n"),
+		x("negative-weight", "backends:\n  - name: a\n    address: http://127.0.0.1:9\n  - name: b\n    address: http://127.0.0.1:9\n    weight: -1\n"),
 	}},
-	{"load_balancer", []frag{
+	{"load_balancer.strategy", []frag{
 		v("round_robin", "load_balancer:\n  strategy: \"round_robin\"\n"),
-		v("ip_hash+pool", "load_balancer:\n  strategy: \"ip_hash\"\n  websocket_pool:\n    enabled: true\n    max_idle: 10\n    max_active: 100\n    idle_timeout_seconds: 300\n"),
-		x("unknown-strategy", "load_balancer:\n  strategy: \"random\"\n"),
-		x("pool-idle-above-active", "load_balancer:\n  strategy: round_robin\n  websocket_pool:\n    enabled: true\n    max_idle: 20\n    max_active: 10\n"),
+		v("ip_hash", "load_balancer:\n  strategy: \"ip_hash\"\n"),
+		x("unknown", "load_balancer:\n  strategy: \"random\"\n"),
+		x("wrong-case", "load_balancer:\n  strategy: \"Round_Robin\"\n"),
 		v("least_connections", "load_balancer:\n  strategy: least_connections\n"),
 		v("weighted_round_robin", "load_balancer:\n  strategy: weighted_round_robin\n"),
 		v("ip_hash_consistent", "load_balancer:\n  strategy: ip_hash_consistent\n"),
-		v("pool-unlimited-active", "load_balancer:\n  strategy: round_robin\n  websocket_pool:\n    enabled: true\n    max_idle: 10\n    max_active: 0\n"),
-		x("pool-negative-idle", "load_balancer:\n  strategy: round_robin\n  websocket_pool:\n    enabled: true\n    max_idle: -1\n"),
-		x("pool-negative-timeout", "load_balancer:\n  strategy: round_robin\n  websocket_pool:\n    enabled: true\n    idle_timeout_seconds: -3\n"),
-		v("pool-disabled-odd-values", "load_balancer:\n  strategy: round_robin\n  websocket_pool:\n    enabled: false\n    max_idle: -1\n"),
+		v("omitted", ""),
 	}},
-	{"health_checks", []frag{
-		v("both", "health_checks:\n  active:\n    enabled: true\n    interval: 10\n    timeout: 7\n    path: \"/\"\n  passive:\n    enabled: true\n    unhealthy_threshold: 3\n    unhealthy_timeout: 30\n"),
-		v("disabled", "health_checks:\n  active:\n    enabled: false\n  passive:\n    enabled: false\n"),
-		x("active-interval-0", "health_checks:\n  active:\n    enabled: true\n    interval: 0\n    timeout: 1\n    path: /h\n"),
-		x("active-timeout-not-below-interval", "health_checks:\n  active:\n    enabled: true\n    interval: 5\n    timeout: 5\n    path: /h\n"),
-		x("active-no-path", "health_checks:\n  active:\n    enabled: true\n    interval: 5\n    timeout: 3\n"),
-		x("passive-threshold-0", "health_checks:\n  passive:\n    enabled: true\n    unhealthy_threshold: 0\n    unhealthy_timeout: 30\n"),
-		x("passive-timeout-0", "health_checks:\n  passive:\n    enabled: true\n    unhealthy_threshold: 3\n    unhealthy_timeout: 0\n"),
+	{"load_balancer.websocket_pool", []frag{
+		v("documented", "load_balancer:\n  websocket_pool:\n    enabled: true\n    max_idle: 10\n    max_active: 100\n    idle_timeout_seconds: 300\n"),
+		v("omitted", ""),
+		x("idle-above-active", "load_balancer:\n  websocket_pool:\n    enabled: true\n    max_idle: 20\n    max_active: 10\n"),
+		x("negative-idle", "load_balancer:\n  websocket_pool:\n    enabled: true\n    max_idle: -1\n"),
+		x("negative-active", "load_balancer:\n  websocket_pool:\n    enabled: true\n    max_idle: 0\n    max_active: -4\n"),
+		x("negative-timeout", "load_balancer:\n  websocket_pool:\n    enabled: true\n    idle_timeout_seconds: -3\n"),
+		v("unlimited-active", "load_balancer:\n  websocket_pool:\n    enabled: true\n    max_idle: 10\n    max_active: 0\n"),
+		v("disabled-odd-values", "load_balancer:\n  websocket_pool:\n    enabled: false\n    max_idle: -1\n"),
+	}},
+	{"health_checks.active", []frag{
+		v("enabled", "health_checks:\n  active:\n    enabled: true\n    interval: 10\n    timeout: 7\n    path: \"/\"\n"),
+		v("disabled", "health_checks:\n  active:\n    enabled: false\n"),
+		x("interval-0", "health_checks:\n  active:\n    enabled: true\n    interval: 0\n    timeout: 1\n    path: /h\n"),
+		x("timeout-0", "health_checks:\n  active:\n    enabled: true\n    interval: 5\n    timeout: 0\n    path: /h\n"),
+		x("timeout-not-below-interval", "health_checks:\n  active:\n    enabled: true\n    interval: 5\n    timeout: 5\n    path: /h\n"),
+		x("no-path", "health_checks:\n  active:\n    enabled: true\n    interval: 5\n    timeout: 3\n"),
+	}},
+	{"health_checks.passive", []frag{
+		v("enabled", "health_checks:\n  passive:\n    enabled: true\n    unhealthy_threshold: 3\n    unhealthy_timeout: 30\n"),
+		v("disabled", "health_checks:\n  passive:\n    enabled: false\n"),
+		x("threshold-0", "health_checks:\n  passive:\n    enabled: true\n    unhealthy_threshold: 0\n    unhealthy_timeout: 30\n"),
+		x("timeout-0", "health_checks:\n  passive:\n    enabled: true\n    unhealthy_threshold: 3\n    unhealthy_timeout: 0\n"),
+		x("threshold-negative", "health_checks:\n  passive:\n    enabled: true\n    unhealthy_threshold: -2\n    unhealthy_timeout: 30\n"),
 	}},
 	{"rate_limit", []frag{
 		v("enabled", "rate_limit:\n  enabled: true\n  max_tokens: 100\n  refill_rate_seconds: 1\n"),
@@ -93,6 +121,8 @@ var c18Sections = []struct {
 		v("disabled", "circuit_breaker:\n  enabled: false\n"),
 		x("failure_threshold-0", "circuit_breaker:\n  enabled: true\n  interval_seconds: 60\n  timeout_seconds: 60\n  failure_threshold: 0\n  success_threshold: 2\n"),
 		x("timeout-negative", "circuit_breaker:\n  enabled: true\n  interval_seconds: 60\n  timeout_seconds: -1\n  failure_threshold: 5\n  success_threshold: 2\n"),
+		x("success_threshold-0", "circuit_breaker:\n  enabled: true\n  interval_seconds: 60\n  timeout_seconds: 60\n  failure_threshold: 5\n  success_threshold: 0\n"),
+		x("interval-0", "circuit_breaker:\n  enabled: true\n  interval_seconds: 0\n  timeout_seconds: 60\n  failure_threshold: 5\n  success_threshold: 2\n"),
 		v("no-max_requests", "circuit_breaker:\n  enabled: true\n  interval_seconds: 30\n  timeout_seconds: 60\n  failure_threshold: 5\n  success_threshold: 2\n"),
 	}},
 	{"metrics", []frag{
@@ -107,13 +137,20 @@ var c18Sections = []struct {
 		x("port-0", "admin_api:\n  enabled: true\n  port: 0\n"),
 		x("port-65536", "admin_api:\n  enabled: true\n  port: 65536\n"),
 	}},
-	{"logging", []frag{
-		v("info-text", "logging:\n  level: \"info\"\n  format: \"text\"\n  include_caller: false\n  request_id:\n    enabled: true\n    header: \"X-Request-ID\"\n  trace:\n    enabled: true\n    header: \"X-Trace-ID\"\n"),
-		v("debug-json", "logging:\n  level: debug\n  format: json\n"),
-		x("level-verbose", "logging:\n  level: verbose\n  format: json\n"),
-		x("format-xml", "logging:\n  level: info\n  format: xml\n"),
+	{"logging.level", []frag{
+		v("info", "logging:\n  level: \"info\"\n"),
+		v("debug", "logging:\n  level: debug\n"),
+		x("verbose", "logging:\n  level: verbose\n"),
+		x("wrong-case", "logging:\n  level: INFO\n"),
 		v("warn", "logging:\n  level: warn\n"),
-		v("error-console", "logging:\n  level: error\n  format: console\n"),
+		v("error", "logging:\n  level: error\n"),
+		v("omitted", ""),
+	}},
+	{"logging.format", []frag{
+		v("text+ids", "logging:\n  format: \"text\"\n  include_caller: false\n  request_id:\n    enabled: true\n    header: \"X-Request-ID\"\n  trace:\n    enabled: true\n    header: \"X-Trace-ID\"\n"),
+		v("json", "logging:\n  format: json\n"),
+		x("xml", "logging:\n  format: xml\n"),
+		v("console", "logging:\n  format: console\n"),
 		v("omitted", ""),
 	}},
 	{"plugins", []frag{
@@ -284,15 +321,27 @@ func c18Product(t *testing.T, r *vres.Report, dir string) {
 		want := true
 		var labels []string
 		var bad []string
+		merged := ""
 		for si, fi := range choice {
 			f := c18Sections[si].frags[fi]
-			sb.WriteString(f.yaml)
+			if f.yaml != "" {
+				if merged == "" {
+					merged = f.yaml
+				} else {
+					m, merr := mergeYAML(merged, f.yaml)
+					if merr != nil {
+						t.Fatalf("composing %s: %v", f.label, merr)
+					}
+					merged = m
+				}
+			}
 			labels = append(labels, c18Sections[si].name+"="+f.label)
 			if !f.ok {
 				want = false
 				bad = append(bad, c18Sections[si].name+"="+f.label)
 			}
 		}
+		sb.WriteString(merged)
 		cfg, err := c18Load(dir, fmt.Sprintf("p%d.yaml", shard), sb.String())
 		evals++
 		outs.Add(fmt.Sprintf("invalid=%d/accepted=%v", len(bad), err == nil))
